@@ -29,6 +29,7 @@ import (
 	"errors"
 	"fmt"
 	"io"
+	"mime"
 	"os"
 	"path/filepath"
 	"reflect"
@@ -84,11 +85,12 @@ const (
 var signerKinds = []string{kindGeneric, kindFiles, kindRaw, kindEnv}
 
 type target struct {
-	Name string
-	Blob bool
-	Size int
-	MT   string
-	Desc ocispec.Descriptor
+	Name    string
+	Variant bool // blob whose content media type is an uncommon spelling
+	Blob    bool
+	Size    int
+	MT      string
+	Desc    ocispec.Descriptor
 }
 
 const keyID = "c07-key"
@@ -133,7 +135,29 @@ func ociName(annotations bool, extras int) string {
 }
 
 var blobSizes = []int{0, 1, 1024, 1<<20 + 1}
-var blobMTs = []string{"application/octet-stream", "text/plain; charset=utf-8"}
+
+// content media types: two common spellings, then legal spellings that are not in any canonical form (RFC 2045:
+// type, subtype and parameter names are case-insensitive, white space after ';' is optional, values may be quoted,
+// parameters come in any order)
+var blobMTs = []string{
+	"application/octet-stream",
+	"text/plain; charset=utf-8",
+	"Application/Vnd.Example+JSON",
+	"text/plain;charset=utf-8",
+	`text/plain;  format=flowed; Charset="UTF-8"`,
+}
+
+const commonMTs = 2 // blobMTs[:commonMTs] are the common spellings
+
+// sameMediaType: equality of media types as RFC 2045 defines it (the statement says "equals", not "is spelled like").
+func sameMediaType(a, b string) bool {
+	if a == b {
+		return true
+	}
+	ta, pa, ea := mime.ParseMediaType(a)
+	tb, pb, eb := mime.ParseMediaType(b)
+	return ea == nil && eb == nil && ta == tb && reflect.DeepEqual(pa, pb)
+}
 
 // how a healthy reader hands over the blob: in one piece (bytes.Reader, io.WriterTo), one byte per Read,
 // half of the buffer per Read, the last chunk together with io.EOF
@@ -160,7 +184,7 @@ var allTargets = func() []target {
 	}
 	for _, s := range blobSizes {
 		for mi, mt := range blobMTs {
-			out = append(out, target{Name: fmt.Sprintf("blob-%d-mt%d", s, mi), Blob: true, Size: s, MT: mt})
+			out = append(out, target{Name: fmt.Sprintf("blob-%d-mt%d", s, mi), Blob: true, Size: s, MT: mt, Variant: mi >= commonMTs})
 		}
 	}
 	return out
@@ -373,9 +397,11 @@ func (p *envPlugin) GenerateEnvelope(ctx context.Context, req *fw.GenerateEnvelo
 // scripted repository: Resolve answers with a chosen descriptor (any fields), PushSignature keeps the envelope
 
 type scriptRepo struct {
-	desc   ocispec.Descriptor
-	pushed [][]byte
-	pushMT []string
+	desc      ocispec.Descriptor
+	pushed    [][]byte
+	pushMT    []string
+	manifests []ocispec.Descriptor
+	page      int // ListSignatures hands over this many manifests per call (0: all at once), in push order
 }
 
 func (s *scriptRepo) Resolve(ctx context.Context, reference string) (ocispec.Descriptor, error) {
@@ -385,16 +411,43 @@ func (s *scriptRepo) Resolve(ctx context.Context, reference string) (ocispec.Des
 	return s.desc, nil
 }
 func (s *scriptRepo) ListSignatures(ctx context.Context, desc ocispec.Descriptor, fn func([]ocispec.Descriptor) error) error {
-	return errors.New("scriptRepo: not used")
+	if desc.Digest != s.desc.Digest {
+		return fn(nil)
+	}
+	n := s.page
+	if n <= 0 {
+		n = len(s.manifests) + 1
+	}
+	for i := 0; i < len(s.manifests); i += n {
+		j := i + n
+		if j > len(s.manifests) {
+			j = len(s.manifests)
+		}
+		if err := fn(append([]ocispec.Descriptor(nil), s.manifests[i:j]...)); err != nil {
+			return err
+		}
+	}
+	if len(s.manifests) == 0 {
+		return fn(nil)
+	}
+	return nil
 }
 func (s *scriptRepo) FetchSignatureBlob(ctx context.Context, desc ocispec.Descriptor) ([]byte, ocispec.Descriptor, error) {
-	return nil, ocispec.Descriptor{}, errors.New("scriptRepo: not used")
+	for i, m := range s.manifests {
+		if m.Digest == desc.Digest {
+			b := append([]byte(nil), s.pushed[i]...)
+			return b, ocispec.Descriptor{MediaType: s.pushMT[i], Digest: digest.Digest("sha256:" + hexOf("sha256", b)), Size: int64(len(b))}, nil
+		}
+	}
+	return nil, ocispec.Descriptor{}, fmt.Errorf("scriptRepo: signature manifest %s not found", desc.Digest)
 }
 func (s *scriptRepo) PushSignature(ctx context.Context, mediaType string, blob []byte, subject ocispec.Descriptor, annotations map[string]string) (ocispec.Descriptor, ocispec.Descriptor, error) {
 	s.pushed = append(s.pushed, append([]byte(nil), blob...))
 	s.pushMT = append(s.pushMT, mediaType)
 	bd := ocispec.Descriptor{MediaType: mediaType, Digest: digest.Digest("sha256:" + hexOf("sha256", blob)), Size: int64(len(blob))}
-	return bd, ocispec.Descriptor{MediaType: mtManifest, Digest: digest.Digest("sha256:" + hexOf("sha256", append([]byte("manifest of "), blob...))), Size: 1}, nil
+	md := ocispec.Descriptor{MediaType: mtManifest, Digest: digest.Digest("sha256:" + hexOf("sha256", append([]byte(fmt.Sprintf("manifest %d of ", len(s.manifests))), blob...))), Size: 1}
+	s.manifests = append(s.manifests, md)
+	return bd, md, nil
 }
 
 // ---------------------------------------------------------------------------
@@ -448,13 +501,21 @@ func buildWorld(r *hx.Run) *world {
 		w.chains[ck(s, "short-lived")] = pki.NewChain(pki.ChainOpts{Len: 3, LeafSpec: s, LeafIdx: 0, ReuseCAs: first.Certs[1:],
 			Leaf: &pki.Tmpl{Subject: pki.Name("C07 " + s + " leaf"), NotBefore: nb, NotAfter: time.Now().Add(shortLeafRemaining).Truncate(time.Second)}})
 	}
+	// signers the policy does not trust: the same leaf keys and the same subject and issuer names under other CA keys
+	var otherCAs []*pki.Cert
+	for _, s := range pki.AllSpecs {
+		o := pki.ChainOpts{Len: 3, LeafSpec: s, LeafIdx: 0, CAIdx: 7, Prefix: "C07 " + pki.AllSpecs[0], Leaf: &pki.Tmpl{Subject: pki.Name("C07 " + s + " leaf")}, ReuseCAs: otherCAs}
+		ch := pki.NewChain(o)
+		otherCAs = ch.Certs[1:]
+		w.chains[ck(s, "untrusted")] = ch
+	}
 	w.dir = filepath.Join(hx.Scratch(), "c07-keys")
 	if err := os.MkdirAll(w.dir, 0o700); err != nil {
 		r.Infra("scratch: %v", err)
 		r.Finish()
 	}
 	for _, sp := range pki.AllSpecs {
-		for _, win := range certWindows {
+		for _, win := range append(append([]string(nil), certWindows...), "untrusted") {
 			s := ck(sp, win)
 			der, err := x509.MarshalPKCS8PrivateKey(w.chains[s].Leaf().Key)
 			if err == nil {
@@ -541,6 +602,10 @@ type caseT struct {
 	FaultCall  string `json:"fault_call,omitempty"`        // "SignBlob" or "VerifyBlob"
 	FaultAfter int    `json:"fault_after_bytes,omitempty"` // the failing reader delivers this many bytes, then an error
 	Before     *caseT `json:"before,omitempty"`
+	// "repository-history": the signatures the artifact carries, in listing order ("trusted/jws", "untrusted/cose", ...),
+	// all made with the case's key spec and signer kind; ListSignatures hands over PageSize manifests per call (0: all)
+	Sequence []string `json:"signatures_on_artifact,omitempty"`
+	PageSize int      `json:"list_page_size,omitempty"`
 }
 
 func (c caseT) String() string {
@@ -551,6 +616,9 @@ func (c caseT) String() string {
 	s := fmt.Sprintf("%s|%s|%s|%s|%s|%d|%s|%s", ck(c.Spec, c.CertWindow), short(c.Format), c.Signer, t, c.Meta, c.ExpirySec, c.Agent, c.Entry)
 	if c.Entry == "fault-history" {
 		s += fmt.Sprintf("|after-%s-whose-reader-failed-at-byte-%d", c.FaultCall, c.FaultAfter)
+	}
+	if c.Entry == "repository-history" {
+		s += fmt.Sprintf("|artifact-carries-%s|page-size-%d", strings.Join(c.Sequence, ","), c.PageSize)
 	}
 	if c.Before != nil {
 		bt := c.Before.Target
@@ -563,10 +631,13 @@ func (c caseT) String() string {
 }
 
 func short(f string) string {
-	if f == forge.JWS {
+	switch f {
+	case forge.JWS:
 		return "jws"
+	case forge.COSE:
+		return "cose"
 	}
-	return "cose"
+	return f
 }
 
 func findTarget(name string) (target, bool) {
@@ -697,7 +768,7 @@ func judgePayload(res *result, c *caseT, raw []byte, want wantT, blob bool) {
 	}
 	var mt, dg string
 	var size json.Number
-	if err := json.Unmarshal(ta["mediaType"], &mt); err != nil || mt != want.MediaType {
+	if err := json.Unmarshal(ta["mediaType"], &mt); err != nil || !sameMediaType(mt, want.MediaType) {
 		res.bad("payload/media-type-differs", "payload mediaType %s, signed %q", ta["mediaType"], want.MediaType)
 	}
 	if err := json.Unmarshal(ta["digest"], &dg); err != nil || dg != want.Digest {
@@ -938,6 +1009,8 @@ func (w *world) runCase(r *hx.Run, c *caseT) *result {
 	switch c.Entry {
 	case "product", "repository-path":
 		return w.roundTrip(r, c, in)
+	case "repository-history":
+		return w.repoHistory(r, c)
 	case "fault-history", "instance-reuse":
 		if in.v, err = w.newV(); err != nil {
 			return &result{infra: fmt.Sprintf("verifier construction: %v", err)}
@@ -1062,7 +1135,7 @@ func (w *world) roundTrip(r *hx.Run, c *caseT, in *instances) *result {
 		res.verified = true
 		judgeOutcome(res, c, sig, outcome, want, meta, nil, agent, true)
 		// the descriptor of the blob that was verified: media type, digest, size (the statement fixes nothing about annotations)
-		if desc.MediaType != want.MediaType || string(desc.Digest) != want.Digest || desc.Size != want.Size {
+		if !sameMediaType(desc.MediaType, want.MediaType) || string(desc.Digest) != want.Digest || desc.Size != want.Size {
 			res.bad("blob/returned-descriptor-differs", "VerifyBlob returned {mediaType:%q digest:%q size:%d}, the verified blob is {mediaType:%q digest:%q size:%d}",
 				desc.MediaType, desc.Digest, desc.Size, want.MediaType, want.Digest, want.Size)
 		}
@@ -1096,11 +1169,11 @@ func (w *world) roundTrip(r *hx.Run, c *caseT, in *instances) *result {
 				res.note("verify-options/verification-failed:" + vo.label)
 				continue
 			}
-			if d2.MediaType != want.MediaType || string(d2.Digest) != want.Digest || d2.Size != want.Size {
+			if !sameMediaType(d2.MediaType, want.MediaType) || string(d2.Digest) != want.Digest || d2.Size != want.Size {
 				res.bad("blob/returned-descriptor-differs", "VerifyBlob with ContentMediaType=%q UserMetadata=%s returned {mediaType:%q digest:%q size:%d}, the verified blob is {mediaType:%q digest:%q size:%d}",
 					mt, vt.MapString(vo.required), d2.MediaType, d2.Digest, d2.Size, want.MediaType, want.Digest, want.Size)
 			}
-			if d2.MediaType != kept.MediaType || d2.Digest != kept.Digest || d2.Size != kept.Size || !sameMap(d2.Annotations, kept.Annotations) {
+			if !sameMediaType(d2.MediaType, kept.MediaType) || d2.Digest != kept.Digest || d2.Size != kept.Size || !sameMap(d2.Annotations, kept.Annotations) {
 				res.bad("blob/returned-descriptor-depends-on-verify-options", "same blob, same signature: VerifyBlob returned %+v with ContentMediaType=%q UserMetadata=%s, but %+v with ContentMediaType=%q and no required metadata",
 					d2, mt, vt.MapString(vo.required), kept, t.MT)
 			}
@@ -1173,6 +1246,92 @@ func (w *world) roundTrip(r *hx.Run, c *caseT, in *instances) *result {
 		}
 		judgeAlternate(res, c, o2, want, meta, t.Desc.Annotations, false, vo)
 	}
+	return res
+}
+
+// repoHistory: the artifact is signed several times through notation.SignOCI (trusted and untrusted signers, both
+// envelope formats, any order) into a repository that lists the signatures in push order, page by page; then
+// notation.Verify. The artifact carries a signature by a trusted signer, so verification succeeds and reports it.
+func (w *world) repoHistory(r *hx.Run, c *caseT) *result {
+	res := &result{}
+	meta, ok := findMeta(c.Meta)
+	agent, ok2 := findAgent(c.Agent)
+	if !ok || !ok2 || len(c.Sequence) == 0 {
+		res.infra = "unknown dimension value in " + c.String()
+		return res
+	}
+	desc := ociDesc(false, 0)
+	repo := &scriptRepo{desc: desc, page: c.PageSize}
+	ref := "reg.example.io/c07@" + desc.Digest.String()
+	trusted := 0
+	for _, el := range c.Sequence {
+		who, f, found := strings.Cut(el, "/")
+		format := map[string]string{"jws": forge.JWS, "cose": forge.COSE}[f]
+		if !found || format == "" || (who != "trusted" && who != "untrusted") {
+			res.infra = "bad sequence element in " + c.String()
+			return res
+		}
+		sc := *c
+		um := copyMap(meta)
+		if who == "untrusted" {
+			sc.CertWindow = "untrusted"
+			um = map[string]string{"signedBy": "someone else"}
+		} else {
+			trusted++
+		}
+		s, _, err := w.newSigner(&sc)
+		if err != nil {
+			res.infra = fmt.Sprintf("signer construction (%s): %v", c, err)
+			return res
+		}
+		r.Eval(1)
+		so := notation.SignerSignOptions{SignatureMediaType: format, ExpiryDuration: time.Duration(c.ExpirySec) * time.Second, SigningAgent: agent}
+		if _, _, err := notation.SignOCI(ctx, s, repo, notation.SignOptions{SignerSignOptions: so, ArtifactReference: ref, UserMetadata: um}); err != nil {
+			res.noteSignFailed(c, err)
+			return res
+		}
+	}
+	if trusted == 0 || len(repo.pushed) == 0 {
+		res.infra = "no trusted signature in " + c.String()
+		return res
+	}
+	v, err := w.newV()
+	if err != nil {
+		res.infra = fmt.Sprintf("verifier construction: %v", err)
+		return res
+	}
+	r.Eval(1)
+	_, outcomes, err := notation.Verify(ctx, v, repo, notation.VerifyOptions{ArtifactReference: ref, MaxSignatureAttempts: len(c.Sequence) + 5})
+	if err != nil {
+		res.bad("roundtrip/verification-failed:"+c.Signer, "notation.Verify rejects an artifact that carries a signature the signing API produced for a trusted signer (signatures listed: %s, %d per page): %v", strings.Join(c.Sequence, ", "), c.PageSize, err)
+		return res
+	}
+	res.verified = true
+	var good *notation.VerificationOutcome
+	for _, o := range outcomes {
+		if o != nil && o.Error == nil && o.EnvelopeContent != nil {
+			good = o
+			break
+		}
+	}
+	if good == nil {
+		res.bad("roundtrip/no-envelope-content-on-success", "notation.Verify succeeded without an outcome that carries envelope content (%d outcomes)", len(outcomes))
+		return res
+	}
+	// which of the pushed envelopes verified (for the independent reading of the bytes)
+	jc := *c
+	sig := good.RawSignature
+	for i, b := range repo.pushed {
+		if bytes.Equal(b, sig) {
+			jc.Format = repo.pushMT[i]
+		}
+	}
+	var wantAnn map[string]string
+	if len(meta) > 0 {
+		wantAnn = meta
+	}
+	want := wantT{MediaType: desc.MediaType, Digest: string(desc.Digest), Size: desc.Size, Annotations: wantAnn}
+	judgeOutcome(res, &jc, sig, good, want, meta, nil, agent, false)
 	return res
 }
 
@@ -1254,7 +1413,7 @@ func report(r *hx.Run, c *caseT, res *result) string {
 	switch c.Entry {
 	case "repository-path":
 		fam = "oci-repository"
-	case "fault-history", "instance-reuse":
+	case "fault-history", "instance-reuse", "repository-history":
 		fam = c.Entry + "/" + fam
 	}
 	if res.infra != "" {
@@ -1299,15 +1458,16 @@ func report(r *hx.Run, c *caseT, res *result) string {
 
 func main() {
 	r := hx.New("C07")
-	r.Rule = "phase 1 (sequential, fresh process): for every key spec x format x signer kind x failing call {SignBlob, VerifyBlob} x failure point {0, half, all-but-one bytes} x delivery of the follow-up, a blob call whose reader fails is followed by an honest sign->verify round trip of the same signer and verifier instances; phase 2 (parallel): every element of key spec x leaf validity {long-lived, short-lived: ends 3 h from now, before signing time + 24 h} x format x signer kind x (32 OCI descriptors: annotations x every subset of urls/data/platform/artifactType | 8 blobs x 4 ways the readers deliver the bytes) x user metadata x expiry duration x signing agent is signed once by the real signing API and the bytes verified by the real verification API once with the sign-side options and once for every other accepted setting of the verify-side options (blob content media type {as signed, not given} x required user metadata {none, one signed pair, all signed pairs}); one notation.SignOCI -> in-memory repository -> notation.Verify trip per (key spec, format); instance reuse: every ordered pair of four configurations done by the same signer and verifier instances; non-trivial = distinct histories whose judged round trip succeeded (signature produced, verification succeeded), the only cases in which the reporting oracle is evaluated"
+	r.Rule = "phase 1 (sequential, fresh process): for every key spec x format x signer kind x failing call {SignBlob, VerifyBlob} x failure point {0, half, all-but-one bytes} x delivery of the follow-up, a blob call whose reader fails is followed by an honest sign->verify round trip of the same signer and verifier instances; phase 2 (parallel): every element of key spec x leaf validity {long-lived, short-lived: ends 3 h from now, before signing time + 24 h} x format x signer kind x (32 OCI descriptors: annotations x every subset of urls/data/platform/artifactType | 4 blob sizes x 5 content media type spellings (2 common, 3 legal uncommon ones: case, spacing, quoting, parameter order) x 4 ways the readers deliver the bytes (the uncommon spellings meet the 1 MiB blob delivered whole only)) x user metadata x expiry duration x signing agent is signed once by the real signing API and the bytes verified by the real verification API once with the sign-side options and once for every other accepted setting of the verify-side options (blob content media type {as signed, not given} x required user metadata {none, one signed pair, all signed pairs}); one notation.SignOCI -> in-memory repository -> notation.Verify trip per (key spec, format); instance reuse: every ordered pair of four configurations done by the same signer and verifier instances; repository histories: for every key spec x signer kind, the artifact is signed through notation.SignOCI 1..3 times by a trusted or an untrusted signer (same leaf key and names, other CA keys) in either envelope format, at least once trusted, in every order, the scripted repository lists the signatures in push order all at once or one per page, then notation.Verify; non-trivial = distinct histories whose judged round trip succeeded (signature produced, verification succeeded), the only cases in which the reporting oracle is evaluated"
 	r.Assumptions = []string{
 		"RSASSA-PSS / ECDSA / SHA-2 of the Go standard library are correct (used by the scripted plugins, lib/refsig and the oracle's digest recomputation)",
 		"the scripted plugins are honest: they sign exactly the bytes handed to them with the hash named in the request and honour expiryDurationInSeconds",
 		"the statement's 1 s expiry is replaced by 1 h so that no generated instant comes within 1 h of now",
-		"the statement speaks about signatures the signing API produced: a signing error is recorded (recorded:roundtrip/sign-failed:<kind>) and the round trip not judged; a (key spec, format, signer kind) that never produces a signature ends the run as an infrastructure error (not judged), never as a violation",
+		"the statement speaks about signatures the signing API produced: a signing error is recorded (recorded:roundtrip/sign-failed:<kind>) and the round trip not judged; a (key spec, format, signer kind) that never produces a signature makes the run exhaustive:false (not judged), never a violation",
 		"only what the statement fixes is enforced; further observations (outcome.Error on success, payload content type, byte identity of the reported payload, lib/refsig's own verdict, what the envelope plugin is told, how SignOCI pushes, what SignOCI/notation.Verify return about the manifest, acceptance of other verify-side options, aliasing of returned values) are evidence only (recorded:<key>)",
 		"user metadata read back for an OCI target that has annotations of its own: every signed user pair must be present and nothing but signed pairs (the statement does not say whether the target's own annotations count as user metadata); without such annotations: equality",
 		"the envelope-generator contract has no signing-agent field: for that signer kind the agent dimension selects the plugin's envelope builder (lib/forge vs notation-core-go)",
+		"media types are compared as RFC 2045 defines their equality (case of type/subtype/parameter names, spacing, quoting and parameter order do not matter), not as strings",
 		"the descriptor returned by VerifyBlob is judged on media type (the signed one, also when the verifier was not told a media type), digest and size; its annotations are recorded, not judged, but the returned descriptor may not differ between verifications of the same blob and signature under different verify-side options",
 		"the result of a call whose reader fails is recorded, not judged; only the honest round trip after it is judged (keys after-failed-read/...)",
 	}
@@ -1354,6 +1514,9 @@ func main() {
 			continue
 		}
 		for _, d := range deliveries {
+			if t.Variant && t.Size > 1<<20 && d != "whole" {
+				continue // the uncommon media type spellings meet the 1 MiB blob delivered whole only
+			}
 			tds = append(tds, tdT{t, d})
 		}
 	}
@@ -1399,7 +1562,7 @@ func main() {
 										// diagonal too (1 in 6, combined 1 in 24; the 1 MiB blob in pieces 1 in 48)
 										big := td.t.Blob && td.t.Size > 1<<20
 										pieces := td.t.Blob && td.d != "whole"
-										subset := !td.t.Blob && ti%16 != 0 && ti%16 != 15
+										subset := (!td.t.Blob && ti%16 != 0 && ti%16 != 15) || td.t.Variant
 										every := 2
 										if slowSpec(spec) || big {
 											every = 4
@@ -1461,12 +1624,45 @@ func main() {
 		}
 	}
 	nReuse := len(cases) - nProduct - nRepo
+	// repository histories: the artifact carries 1..3 signatures, each by a trusted or an untrusted signer in either
+	// format, at least one trusted, listed in every order, all at once or one per page
+	els := []string{"trusted/jws", "trusted/cose", "untrusted/jws", "untrusted/cose"}
+	var seqs [][]string
+	var grow func(prefix []string)
+	grow = func(prefix []string) {
+		if strings.Contains(","+strings.Join(prefix, ","), ",trusted/") {
+			seqs = append(seqs, append([]string(nil), prefix...))
+		}
+		if len(prefix) == 3 {
+			return
+		}
+		for _, e := range els {
+			grow(append(prefix, e))
+		}
+	}
+	grow(nil)
+	for si, spec := range pki.AllSpecs {
+		for ki, kind := range signerKinds {
+			for qi, seq := range seqs {
+				for pi, page := range []int{0, 1} {
+					if !r.Thorough() && (ki != (si+qi)%len(signerKinds) || (slowSpec(spec) && (qi+pi)%3 != 0)) {
+						continue // quick: the signer kind rotates; RSA-3072/4096 on a diagonal
+					}
+					cases = append(cases, caseT{Spec: spec, Format: "mixed", Signer: kind, Target: "oci-minimal", Meta: "one", ExpirySec: 3600, Agent: "default",
+						Entry: "repository-history", Sequence: seq, PageSize: page})
+				}
+			}
+		}
+	}
+	nHist := len(cases) - nProduct - nRepo - nReuse
 	r.Extra["product_full_size"] = full
 	r.Extra["product_cases_run"] = nProduct
 	r.Extra["repository_path_cases"] = nRepo
 	r.Extra["instance_reuse_histories"] = nReuse
+	r.Extra["repository_histories"] = nHist
+	r.Extra["repository_history_sequences"] = len(seqs)
 	r.Extra["fault_histories"] = len(faults)
-	r.Extra["alphabet"] = map[string]int{"key_specs": len(pki.AllSpecs), "leaf_validity_windows": len(certWindows), "verify_option_settings_per_signature_max": 6, "formats": 2, "signer_kinds": len(signerKinds), "oci_targets": 2 << len(extraFields), "blob_targets": len(blobSizes) * len(blobMTs), "blob_deliveries": len(deliveries),
+	r.Extra["alphabet"] = map[string]int{"key_specs": len(pki.AllSpecs), "leaf_validity_windows": len(certWindows), "verify_option_settings_per_signature_max": 6, "formats": 2, "signer_kinds": len(signerKinds), "oci_targets": 2 << len(extraFields), "blob_targets": len(blobSizes) * len(blobMTs), "content_media_type_spellings": len(blobMTs), "blob_deliveries": len(deliveries),
 		"user_metadata": len(metas), "expiry_durations": len(expirySeconds), "signing_agents": len(agents), "fault_calls": 2, "fault_points": 3, "reuse_configurations": len(reuse)}
 
 	// results are reported in enumeration order, so the case written out for a violation key is always
@@ -1569,13 +1765,10 @@ func main() {
 			continue
 		}
 		unjudged = append(unjudged, fmt.Sprintf("%s (%d histories)", k, cb.done))
-		// exit 2 only if the run has no verdict otherwise and the combination was sampled well enough
-		if r.Violations() == 0 && cb.done >= 20 {
-			r.Infra("not judged: none of the %d histories of %s produced a signature that could be verified (see recorded:roundtrip/sign-failed)", cb.done, k)
-		}
 	}
 	if len(unjudged) > 0 {
 		r.Extra["combinations_without_any_produced_signature"] = unjudged
+		r.Capped(fmt.Sprintf("not judged: %d (key spec x format x signer kind) combinations never produced a signature (recorded:roundtrip/sign-failed)", len(unjudged)))
 	}
 	r.Finish()
 }
